@@ -96,3 +96,37 @@ Definition lower_memref_dyn (shape : list (option Z)) (msrc mdst : mlayout) (el 
   | LNone, LNone => Some (lower_simple el rshape)
   | _, _ => lower_dyn (to_tsl shape msrc mdst) (to_tsl shape mdst msrc) el rshape smd dmd
   end.
+
+(* ---- decidable classes of the dynamic findings ----------------------------------------------------- *)
+Definition step_dynamic (s : stride) : bool := match sstep s with None => true | Some _ => false end.
+Definition has_dyn_step (l : layout) : bool := existsb step_dynamic (all_strides l).
+
+(* F27: a `?` step resolved by the contiguity rule although the layout has no static (non-zero) step to
+   anchor it: get_step_ops starts from bound * 0 *)
+Definition dyn_no_anchor (l : layout) : bool :=
+  has_dyn_step l && (snd (max_static_step (all_strides l)) =? 0).
+
+(* F28: the anchor is the FIRST stride with the largest static step; another stride with the same step has
+   a larger (static) bound, so the contiguous continuation is step * that bound, not step * anchor bound *)
+Definition dyn_anchor_tie (l : layout) : bool :=
+  let flat := all_strides l in
+  let '(mk, mv) := max_static_step flat in
+  let ab := match sbound (nth mk flat (None, None)) with Some b => b | None => -1 end in
+  has_dyn_step l && negb (mv =? 0) && (0 <=? ab) &&
+  existsb (fun s => optZ_eqb (sstep s) (Some mv) && match sbound s with Some b => ab <? b | None => false end) flat.
+
+(* the contiguity rule is only used for memrefs without strided metadata *)
+Definition uses_rule (m : mlayout) : bool := match m with LStrided _ _ => false | _ => true end.
+
+(* F29: the common contiguous block contains a stride whose step is dynamic: `?` == `?` makes
+   largest_common_contiguous_block treat it as shared and contiguous whatever the run-time strides are *)
+Definition dyn_in_block (src dst : layout) : bool := existsb step_dynamic (lccb src dst 1).
+
+(* 0 = none, 1 = F27, 2 = F28, 3 = F29 *)
+Definition dyn_class (shape : list (option Z)) (msrc mdst : mlayout) : Z :=
+  let a := to_tsl shape msrc mdst in
+  let b := to_tsl shape mdst msrc in
+  if (uses_rule msrc && dyn_no_anchor a) || (uses_rule mdst && dyn_no_anchor b) then 1
+  else if (uses_rule msrc && dyn_anchor_tie a) || (uses_rule mdst && dyn_anchor_tie b) then 2
+  else if dyn_in_block a b then 3
+  else 0.
